@@ -22,6 +22,7 @@ tab = ["**Seeded changes** (written by fresh sub-agents from the property text a
        "", "| Change | What was changed | Needs | Caught by |", "|---|---|---|---|"] + rows
 p = os.path.join(V, "DESIGN.md")
 s = open(p).read()
-s = re.sub(r"<!-- SEEDED-TABLE-BEGIN -->.*<!-- SEEDED-TABLE-END -->", "<!-- SEEDED-TABLE-BEGIN -->\n" + "\n".join(tab) + "\n<!-- SEEDED-TABLE-END -->", s, flags=re.S)
+_new = "<!-- SEEDED-TABLE-BEGIN -->\n" + "\n".join(tab) + "\n<!-- SEEDED-TABLE-END -->"
+s = re.sub(r"<!-- SEEDED-TABLE-BEGIN -->.*<!-- SEEDED-TABLE-END -->", lambda m: _new, s, flags=re.S)
 open(p, "w").write(s)
 print(len(rows), "seeded changes")
